@@ -35,8 +35,8 @@ Section Structure.
   Proof. unfold b_pow. destruct (is_fixed a); reflexivity. Qed.
   Lemma b_smul_bmeta (a : msgT) c : bmeta (b_smul O a c) = bmeta a.
   Proof. unfold b_smul. destruct (is_fixed a); reflexivity. Qed.
-  Lemma b_sdiv_bmeta (a : msgT) c : bmeta (b_sdiv O a c) = bmeta a.
-  Proof. reflexivity. Qed.
+  Lemma b_sdiv_bmeta V (a : msgT) c : bmeta (b_sdiv O V a c) = bmeta a.
+  Proof. unfold b_sdiv. destruct (is_fixed a && fixed_truediv_noop V); reflexivity. Qed.
   Lemma b_zeros_bmeta (a : msgT) : bmeta (b_zeros O a) = bmeta a.
   Proof. unfold b_zeros. destruct (fam a); try apply b_pow_bmeta. rewrite b_pow_bmeta. reflexivity. Qed.
   Lemma b_fromnat_bmeta (a : msgT) : bmeta (b_fromnat O a) = bmeta a.
@@ -182,7 +182,7 @@ Section Structure.
     - destruct (eval O V env x) as [vx|] eqn:Ex; [|discriminate]. inversion H; subst.
       destruct (IHx vx eq_refl) as (m0 & m & N & -> & M). exists m0, (b_smul O m c). simpl. rewrite b_smul_bmeta. auto.
     - destruct (eval O V env x) as [vx|] eqn:Ex; [|discriminate]. inversion H; subst.
-      destruct (IHx vx eq_refl) as (m0 & m & N & -> & M). exists m0, (b_sdiv O m c). simpl. auto.
+      destruct (IHx vx eq_refl) as (m0 & m & N & -> & M). exists m0, (b_sdiv O V m c). simpl. rewrite b_sdiv_bmeta. auto.
     - destruct (eval O V env x) as [vx|] eqn:Ex; [|discriminate].
       destruct (IHx vx eq_refl) as (m0 & m & N & -> & M).
       destruct (eval O V env y) as [vy|]; try discriminate; destruct (eval O V env z) as [vz|]; try discriminate.
